@@ -1220,3 +1220,7 @@ package netty
 // precede inactive's critical section, whose Stop (existing_timer_stopped) then releases the timer;
 // at most the one callback whose first section preceded inactive may still deliver an event.
 //@ lemma idle_quiet_after_inactive(tRead int, tRearm int, tInactive int, sawCtx bool, fired bool, sawTimer bool, rearmed bool) implies(tRead < tRearm && tRead != tInactive && tRearm != tInactive && iff(sawCtx, tRead < tInactive) && implies(fired, sawCtx) && iff(sawTimer, tRearm < tInactive) && iff(rearmed, sawTimer), implies(tInactive < tRead, !fired && !rearmed) && implies(rearmed, tRearm < tInactive))
+
+// no mutable package-level state (C12, and every property whose plan touches this package)
+//@ property C12
+//@ globals immutable
